@@ -2,10 +2,13 @@
 //!   vh gen    <Cxx> --tier quick|thorough --seed N --out trace.ndjson
 //!   vh replay <Cxx> --in cases.ndjson --out trace.ndjson
 mod util;
+mod c01;
 mod c02;
 mod c08;
+mod c10;
 mod c11;
 mod c17;
+mod decoders;
 mod linalg2;
 
 use util::Args;
@@ -31,6 +34,8 @@ fn main() {
     }
     util::quiet_panics();
     match (mode.as_str(), prop.as_str()) {
+        ("gen", "C01") => c01::generate(&a),
+        ("gen", "C10") => c10::generate(&a),
         ("gen", "C02") => c02::generate_c02(&a),
         ("gen", "C08") => c08::generate(&a),
         ("gen", "C09") => c02::generate_c09(&a),
